@@ -235,7 +235,9 @@ Proof.
   unfold date_ok.
   assert (E1 : (1 <=? y) = true) by (apply N.leb_le; lia).
   assert (E2 : (d <=? Time.dim (Time.leap y) m) = true) by (apply N.leb_le; lia).
-  rewrite E1, E2. cbn [andb]. rewrite G. reflexivity.
+  rewrite E1, E2. cbn [andb]. unfold renorm. rewrite G.
+  assert (E3 : (Z.of_N ts <? Y10K)%Z = true) by (apply Z.ltb_lt; unfold Y10K; lia).
+  rewrite E3. reflexivity.
 Qed.
 
 (* everything strptime lets through is a calendar date with a time of day (seconds up to 61: leap seconds) *)
